@@ -305,6 +305,15 @@ def judge(hist, r, res):
             key = 'recovery/history-mismatch-after-partial-w-push'
             why = ('the push of the integration branches is not atomic: with %s refused and the others accepted, '
                    'the fresh Bert-E answers BranchHistoryMismatch (a manual `reset` is needed)' % pt['ref'])
+        elif (last == 'DeprecatedStabilizationBranch' and ev.get('op') == 'job' and ev.get('kind') == 'delete_branch'
+              and str(ev.get('branch', '')).startswith('stabilization/') and hist['cfg'].get('use_queue')
+              and any(o[1].startswith('git push origin ') and o[2] is False for o in r['ops'])):
+            # the archive tag of a stabilization branch is also its release tag: once it is pushed and the branch
+            # is still there, the cascade cannot be built any more (queue mode builds it in delete_branch too)
+            key = 'recovery/archived-stabilization-branch-in-queue-mode'
+            why = ('delete_branch on a stabilization branch, queues enabled, interrupted after the archive tag '
+                   'was pushed: every later job (the re-delivered delete_branch included) answers '
+                   'DeprecatedStabilizationBranch until the branch is removed by hand')
         else:
             key = 'recovery-content'
             why = 're-delivery answered %s' % last
